@@ -1,4 +1,4 @@
-// C11 / C12 harnesses, compiled inside crate::payload::delta (overlay only).
+// C11 harnesses, compiled inside crate::payload::delta (overlay only).
 // Instantiation: StandardDelta::<u8> (the generic body is shared by RouteOrigin
 // and RouterKey, which differ only in their Ord impl).
 use super::*;
@@ -72,61 +72,11 @@ fn construct_items<const A: usize, const B: usize>() {
     std::mem::forget(d);
 }
 
-/// merge(construct(a,b), construct(b,c)) has the counts and length of construct(a,c).
-fn merge_counts<const A: usize, const B: usize, const C: usize>() {
-    let a = sorted::<A>();
-    let b = sorted::<B>();
-    let c = sorted::<C>();
-    let d1 = StandardDelta::<u8>::construct(a.iter(), b.iter());
-    let d2 = StandardDelta::<u8>::construct(b.iter(), c.iter());
-    let m = StandardDelta::<u8>::merge(&d1, &d2);
-    let (exp_ann, exp_wd) = expected(&a, &c);
-    assert!(m.announce_len == exp_ann, "merged announce count differs from the direct delta");
-    assert!(m.withdraw_len == exp_wd, "merged withdraw count differs from the direct delta");
-    assert!(m.items.len() == exp_ann + exp_wd, "merged delta lists a different number of actions");
-    kani::cover!(d1.items.len() > 0 && d2.items.len() > 0 && m.items.len() == 0, "changes_cancel");
-    kani::cover!(true, "reached");
-    std::mem::forget(d1);
-    std::mem::forget(d2);
-    std::mem::forget(m);
-}
-
-/// merge(construct(a,b), construct(b,c)) equals construct(a,c) item by item.
-fn merge_items<const A: usize, const B: usize, const C: usize>() {
-    let a = sorted::<A>();
-    let b = sorted::<B>();
-    let c = sorted::<C>();
-    let d1 = StandardDelta::<u8>::construct(a.iter(), b.iter());
-    let d2 = StandardDelta::<u8>::construct(b.iter(), c.iter());
-    let m = StandardDelta::<u8>::merge(&d1, &d2);
-    let d = StandardDelta::<u8>::construct(a.iter(), c.iter());
-    assert!(m.items.len() == d.items.len(), "merged delta has a different number of actions");
-    let mut i = 0;
-    while i < m.items.len() {
-        assert!(m.items[i].0 == d.items[i].0, "merged delta lists a different item");
-        assert!(is_announce(m.items[i].1) == is_announce(d.items[i].1), "merged delta has a different action");
-        i += 1;
-    }
-    kani::cover!(true, "reached");
-    std::mem::forget(d1);
-    std::mem::forget(d2);
-    std::mem::forget(m);
-    std::mem::forget(d);
-}
-
 macro_rules! h2 {
     ($name:ident, $f:ident, $a:expr, $b:expr, $u:expr) => {
         #[kani::proof]
         #[kani::unwind($u)]
         fn $name() { $f::<$a, $b>() }
-    };
-}
-
-macro_rules! h3 {
-    ($name:ident, $f:ident, $a:expr, $b:expr, $c:expr, $u:expr) => {
-        #[kani::proof]
-        #[kani::unwind($u)]
-        fn $name() { $f::<$a, $b, $c>() }
     };
 }
 
@@ -146,13 +96,3 @@ h2!(c11_items_2_1, construct_items, 2, 1, 6);
 h2!(c11_items_1_2, construct_items, 1, 2, 6);
 h2!(c11_items_2_2, construct_items, 2, 2, 7);
 
-h3!(c12_counts_1_1_1, merge_counts, 1, 1, 1, 8);
-h3!(c12_counts_1_0_1, merge_counts, 1, 0, 1, 8);
-h3!(c12_counts_0_1_0, merge_counts, 0, 1, 0, 8);
-h3!(c12_counts_2_1_2, merge_counts, 2, 1, 2, 10);
-h3!(c12_counts_1_2_1, merge_counts, 1, 2, 1, 10);
-h3!(c12_counts_2_2_2, merge_counts, 2, 2, 2, 10);
-h3!(c12_items_1_1_1, merge_items, 1, 1, 1, 8);
-h3!(c12_items_1_0_1, merge_items, 1, 0, 1, 8);
-h3!(c12_items_0_1_0, merge_items, 0, 1, 0, 8);
-h3!(c12_items_2_1_2, merge_items, 2, 1, 2, 10);
